@@ -23,6 +23,7 @@ TInit == Init /\ l = 1 /\ tid = -1 /\ addr = NoAddr
 TReset == /\ IsEvent("Reset")
           /\ st' = [s \in Sess |-> "absent"] /\ regs' = [s \in Sess |-> {}]
           /\ sess' = [a \in Assoc |-> NoSess] /\ circ' = [s \in Sess |-> [h \in Sims |-> "none"]]
+          /\ hnd' = [s \in Sess |-> [h \in Sims |-> 0]]
           /\ ev' = Ev("Init", 0, 0, "", 0, FALSE) /\ out' = NoOut
           /\ tid' = Rec.tid /\ addr' = NoAddr
 \* {"ev":"Cfg","clients":[{"ip":[..4],"port":p}..NA],"sims":[..NH]}: addresses of this trace
@@ -49,7 +50,11 @@ SentOK(pl) == \/ Rec.sent = Concrete(out', pl)
 TLogin == /\ IsEvent("Login") /\ Login(Rec.s)
           /\ Chk("Login.state env Login " \o ToString(Rec.i), ProjOK(Rec.proj)) /\ Chk("Login.sent env Login " \o ToString(Rec.i), Rec.sent = <<>>)
           /\ UNCHANGED <<tid, addr>>
-TReg == /\ IsEvent("Reg") /\ AddRegion(Rec.s, Rec.h)
+\* {"ev":"Reg","s":s,"g":handle (0: none),"h":h,...}: the choice is read off the observed regions
+TReg == /\ IsEvent("Reg")
+        /\ Announce(Rec.s, Rec.g, Rec.h, /\ Rec.h \notin regs[Rec.s]
+                                         /\ Moved(Rec.s, Rec.g, Rec.h) # {}
+                                         /\ Moved(Rec.s, Rec.g, Rec.h) \cap Range(Rec.proj.regs[Rec.s]) = {})
         /\ Chk("Reg.state env Reg " \o ToString(Rec.i), ProjOK(Rec.proj)) /\ Chk("Reg.sent env Reg " \o ToString(Rec.i), Rec.sent = <<>>)
         /\ UNCHANGED <<tid, addr>>
 \* label: the message name the driver used, i: index of the event in its trace (only quoted in failure names)
